@@ -122,10 +122,10 @@ void move_to_asu(const GroupOps&, const Miller& hkl, int, HklValue<T>& hkl_value
 template<typename R>
 void move_to_asu(const GroupOps& gops, const Miller& hkl, int isym,
                  HklValue<std::complex<R>>& v) {
-  v.hkl = hkl;
   // cf. Mtz::ensure_asu()
   const Op& op = gops.sym_ops[(isym - 1) / 2];
-  double shift = op.phase_shift(hkl);
+  double shift = op.phase_shift(v.hkl);  // phase shift is calculated for the original hkl
+  v.hkl = hkl;
   if (shift != 0) {
     double phase = std::arg(v.value) + shift;
     v.value = std::polar(std::abs(v.value), (R)phase);
